@@ -179,7 +179,20 @@ def exec_units(job):
         ref = {"rmse": math.sqrt(float(np.mean(after ** 2))), "sse": float(np.sum(after ** 2)), "mean": float(np.mean(after)),
                "median": float(np.median(after)), "std": float(np.std(after)), "min": float(np.min(after)), "max": float(np.max(after))}
         follow = all(abs(float(st[k]) - v) <= 1e-12 * max(1.0, abs(v)) for k, v in ref.items())
-    return {"out": out, "unit": unit[0] if unit else "?", "k10": k10, "pi": pi, "stats_follow": bool(follow)}
+    # the same conversion on an all-zero error array (identical trajectories): accepted / refused alike, unit updated alike
+    z = metrics.APE()
+    z.unit = getattr(metrics.Unit, UNITNAME[c["from"]])
+    z.error = np.zeros(4)
+    zout = "ok"
+    try:
+        z.change_unit(getattr(metrics.Unit, UNITNAME[c["to"]]))
+    except metrics.MetricsException:
+        zout = "MetricsException"
+    except Exception as e:  # noqa: BLE001
+        zout = type(e).__name__
+    zunit = [k for k, v in UNITNAME.items() if getattr(metrics.Unit, v) is z.unit]
+    return {"out": out, "unit": unit[0] if unit else "?", "k10": k10, "pi": pi, "stats_follow": bool(follow),
+            "zout": zout, "zunit": zunit[0] if zunit else "?"}
 
 
 def exec_ape_axisangle(job):
@@ -238,7 +251,8 @@ def exec_companion(job):
                 q = c["q"]
                 unit = {"frames": metrics.Unit.frames, "meters": metrics.Unit.meters, "degrees": metrics.Unit.degrees}[q["unit"]]
                 delta = {"frames": q["d"], "meters": q["d"] * u, "degrees": float(q["d"])}[q["unit"]]
-                res = main_rpe.rpe(ref, est, rel, delta, unit, q["tn"] / q["td"], q["all"], c["fromref"], change_unit=change)
+                res = main_rpe.rpe(ref, est, rel, delta, unit, q["tn"] / q["td"], q["all"], c["fromref"], change_unit=change,
+                                   support_loop=bool((n // 3) % 2))         # repeated calls on the same objects: same result required
                 mname = "RPE"
     except Exception as e:  # noqa: BLE001
         return {"out": type(e).__name__, "nerr": 0, "ts": [], "sfs": [], "dist": [], "dfs": [], "ids": [], "st_est": [], "st_ref": [],
